@@ -1,6 +1,10 @@
 (* Driver for the extracted C17 model.  Reads the same case file as harness/c17_nn.cpp:
-     D kd <bucket> <dim> <n> c.. | tree=<dump of the real tree>
+     D kd <bucket> <dim> <n> c.. | tree=<dump of the real tree> nth=<recorded std::nth_element results>
      Q h_0 .. h_(dim-1)
+   The D line also runs the construction model C17Build.kd_build: its nth_element oracle answers with the
+   arrangement the real std::nth_element left behind for the node with the same index set (nth=mp:i,i,..;..),
+   each answer is checked with the extracted median_okb at the model's median position; the built tree is
+   printed with sorted leaves (built=..) for comparison with the real tree.
    The model works on doubled coordinates (data 2c, query h, thresholds 2*thr as dumped), so model
    squared distances are 4 x real; 16 x real is printed, as by the harness. *)
 open C17_model
@@ -40,6 +44,41 @@ let rec dump_tree b = function
   | Node (cd, thr, l, r) ->
     Buffer.add_string b (Printf.sprintf "N%d:%d(" (int_of_nat cd) (int_of_z thr));
     dump_tree b l; Buffer.add_string b ")("; dump_tree b r; Buffer.add_string b ")"
+let rec dump_canon b = function
+  | Leaf idx -> Buffer.add_string b ("L" ^ String.concat "," (List.map string_of_int (List.sort compare (List.map int_of_nat idx))))
+  | Node (cd, thr, l, r) ->
+    Buffer.add_string b (Printf.sprintf "N%d:%d(" (int_of_nat cd) (int_of_z thr));
+    dump_canon b l; Buffer.add_string b ")("; dump_canon b r; Buffer.add_string b ")"
+let canon t = let b = Buffer.create 256 in dump_canon b t; Buffer.contents b
+
+(* nth=mp:i,i,i;mp:i,i  ->  table: sorted index list -> (mp, arrangement) *)
+let parse_nth (s : string) : (int list, int * int list) Hashtbl.t * int =
+  let tbl = Hashtbl.create 16 in
+  let cnt = ref 0 in
+  if s <> "-" && s <> "" then
+    List.iter (fun call ->
+      match String.split_on_char ':' call with
+      | [mp; idx] ->
+        let arr = List.map int_of_string (String.split_on_char ',' idx) in
+        incr cnt; Hashtbl.replace tbl (List.sort compare arr) (int_of_string mp, arr)
+      | _ -> failwith ("nth parse: " ^ call)) (String.split_on_char ';' s);
+  (tbl, !cnt)
+
+(* the oracle handed to kd_build; problems are collected in `flags` *)
+let make_oracle tbl flags used =
+  fun (l : (z * nat) list) ->
+    let ids = List.map (fun (_, i) -> int_of_nat i) l in
+    match Hashtbl.find_opt tbl (List.sort compare ids) with
+    | None -> flags := "MISS" :: !flags; ksort l
+    | Some (mp, arr) ->
+      incr used;
+      let assoc = List.map (fun (k, i) -> (int_of_nat i, (k, i))) l in
+      let r = List.map (fun i -> List.assoc i assoc) arr in
+      let mpm = median_pos (nat_of_int (List.length l)) in
+      if int_of_nat mpm <> mp then flags := Printf.sprintf "MPOS(real=%d,model=%d,n=%d)" mp (int_of_nat mpm) (List.length l) :: !flags;
+      if not (median_okb mpm r) then flags := Printf.sprintf "MEDIAN(n=%d)" (List.length l) :: !flags;
+      r
+
 let rec nodes = function Leaf _ -> 1 | Node (_, _, l, r) -> 1 + nodes l + nodes r
 
 let () =
@@ -60,12 +99,27 @@ let () =
         let cs = Array.of_list (List.map int_of_string cs) in
         data := List.init !n (fun i -> List.init dim (fun d -> z_of_int (2 * cs.(i * dim + d))));
         let e = String.trim extra in
-        let ts = if String.length e > 5 && String.sub e 0 5 = "tree=" then String.sub e 5 (String.length e - 5) else failwith "D line without tree" in
+        let fields = List.filter (fun x -> x <> "") (String.split_on_char ' ' e) in
+        let field name = List.fold_left (fun acc f ->
+          let k = String.length name in
+          if String.length f > k && String.sub f 0 (k + 1) = name ^ "=" then Some (String.sub f (k + 1) (String.length f - k - 1)) else acc) None fields in
+        let ts = match field "tree" with Some t -> t | None -> failwith "D line without tree" in
         tree := parse_tree ts;
         let b = Buffer.create 256 in
         dump_tree b !tree;
-        Printf.printf "D n=%d nodes=%d tree=%s %s\n" !n (nodes !tree) (Buffer.contents b)
-          (if wf_treeb !data !tree then "WF" else "NOTWF")
+        let built = match field "nth" with
+          | None -> ""
+          | Some ns ->
+            let tbl, ncalls = parse_nth ns in
+            let flags = ref [] and used = ref 0 in
+            let t = kd_build !data (make_oracle tbl flags used) in
+            let ts = kd_build !data ksort in
+            Printf.sprintf " built=%s real=%s oracle=%s calls=%d/%d sortoracle=%s modelwf=%s" (canon t) (canon !tree)
+              (if !flags = [] then "ok" else String.concat "," (List.rev !flags)) !used ncalls
+              (if canon ts = canon t then "same" else "DIFF")
+              (if wf_treeb !data t then "WF" else "NOTWF") in
+        Printf.printf "D n=%d nodes=%d tree=%s %s%s\n" !n (nodes !tree) (Buffer.contents b)
+          (if wf_treeb !data !tree then "WF" else "NOTWF") built
       | "Q" :: hs ->
         let q = List.map (fun h -> z_of_int (int_of_string h)) hs in
         let b = Buffer.create 1024 in
